@@ -1,0 +1,14 @@
+//go:build verif
+
+package redis
+
+import (
+	"github.com/go-redis/redis/v8"
+	"github.com/panjf2000/ants/v2"
+	"github.com/projecteru2/core/types"
+)
+
+// NewWithClient builds a Rediaron on a caller-supplied client and pool (verification harness only).
+func NewWithClient(cli *redis.Client, config types.Config, pool *ants.PoolWithFunc) *Rediaron {
+	return &Rediaron{cli: cli, config: config, pool: pool, db: config.Redis.DB}
+}
